@@ -88,6 +88,8 @@ def rule_r1(ck, prog, rule='C18.R1'):
               f.nodes[p.n['obj']]['k'] == 'call' and f.nodes[p.n['obj']].get('op') == '[]' and
               any(f.nodes[i]['k'] == 'ref' and f.nodes[i]['name'] == 'kServiceName' for i in f.subtree(p.n['obj']))]
 
+    written = {access_path(f, f.nodes[p.n['obj']]['obj']) for p in writes if f.nodes[p.n['obj']].get('obj') is not None}
+
     def notfound(a, b, lab):
         if not lab or not isinstance(lab[0], int):
             return False
@@ -96,6 +98,11 @@ def rule_r1(ck, prog, rule='C18.R1'):
         if cn['k'] == 'call' and cn.get('op') in ('==', '!='):
             sub = [f.nodes[i] for i in f.subtree(core)]
             if any(n['k'] == 'ref' and n['name'] == 'kServiceName' for n in sub) and any(n['k'] == 'call' and strip_targs(n.get('c', '')).rsplit('::', 1)[-1] == 'end' for n in sub):
+                # the lookup has to be made in the very map the fallback is written to (the merged result, not one of its inputs)
+                looked = {access_path(f, n['obj']) for n in sub if n['k'] == 'call' and n.get('obj') is not None and
+                          strip_targs(n.get('c', '')).rsplit('::', 1)[-1] in ('find', 'end', 'count')}
+                if not looked <= written:
+                    return False
                 return (lab[2] if pol else not lab[2]) is (cn['op'] == '==')
         return False
     ok = bool(writes) and all(g.must_pass_edge(p, notfound) for p in writes)
@@ -296,6 +303,13 @@ def rule_r5(ck, prog, rule='C18.R5'):
     sr = [n for n in f.nodes if n['k'] == 'call' and n.get('virt') and strip_targs(n.get('c', '')).endswith('Recordable::SetResource')]
     ok = bool(sr) and any(f.nodes[i]['k'] == 'call' and strip_targs(f.nodes[i].get('c', '')).endswith('Tracer::GetResource') for i in f.subtree(sr[0]['args'][0]))
     ck.verdict(ok, rule, f, 'span-resource', sr[0] if sr else None, 'spans take the tracer\'s (provider) resource' if ok else 'a span does not receive its provider\'s resource')
+    # the resource is in place before any processor sees the span
+    g = Graph(prog, f, inline=None, sync_lambdas=False)
+    srp = [p for p in g.points if p.n is not None and p.n in sr]
+    ons = [p for p in g.points if p.n is not None and p.n['k'] == 'call' and p.n.get('virt') and strip_targs(p.n.get('c', '')).endswith('SpanProcessor::OnStart')]
+    ok = bool(srp) and bool(ons) and all(g.must_pass(p, srp) for p in ons)
+    ck.verdict(ok, rule, f, 'span-resource-before-onstart', ons[0].n if ons else None, 'SetResource precedes OnStart' if ok else
+               'the processors\' OnStart sees the span before it has received its provider\'s resource (a processor that reads the resource in OnStart gets the empty default)')
 
 
 def rule_r2_disabled(ck, prog, rule='C18.R2'):
@@ -328,7 +342,7 @@ def run(ck, prog):
     ck.doc('C18.R2', 'out-parameter typestate of the environment readers and duration helpers; OTEL_SDK_DISABLED through the boolean reader', 13)
     ck.doc('C18.R3', 'errno cleared before every strto* whose errno is read', 2)
     ck.doc('C18.R4', 'digit accumulation bounded; per-unit overflow guard uses the exact tick ratio', 7)
-    ck.doc('C18.R5', 'span / log record / metric batch take the provider\'s resource', 3)
+    ck.doc('C18.R5', 'span / log record / metric batch take the provider\'s resource, before a processor sees them', 4)
     with ck.canary('C18.R2'):
         _canary(ck, prog)
     rule_r1(ck, prog)
